@@ -37,6 +37,16 @@ def run(tier, seed):
             traces.append({"trace": tr, "cases": tr + ".cases", "nofw": nofw,
                            "origin": f"crash cuts seed={s} {'normal-only' if nofw else 'with firewalls'}"})
 
+    # programs with firewalls and projections in the sweep regime (a witness per firewall is queried
+    # first after every commit): the pre-crash phase is free of known findings, so the value verdicts
+    # after the crash count for these programs too
+    for i in range(n_seeds):
+        s = seed * 1000 + i + 600
+        tr = os.path.join(wd, f"crash_sweep_{i}.ndjson")
+        ec.eng_persist(bd, tr, seed=s, runs=runs // 2, steps=steps, crash=1, nofw=0, sweep=1, cases=tr + ".cases")
+        traces.append({"trace": tr, "cases": tr + ".cases", "nofw": 0,
+                       "origin": f"crash cuts seed={s} with firewalls, sweep regime"})
+
     # validate; judge only what happens after a crash event (cr = TRUE)
     import concurrent.futures as cf
     results = []
